@@ -1,18 +1,26 @@
 #!/usr/bin/env python3
-"""Runs every check against every seeded change (scratch copies) and records which obligation keys fire
-in seeded/<id>/meta.json ("detected_by") and seeded/MATRIX.md."""
-import json, os, subprocess, glob, re
+"""Runs every check against every seeded change (scratch copies, N in parallel) and records which obligation keys
+fire in seeded/<id>/meta.json ("detected_by") and seeded/MATRIX.md.  Usage: tools/seed_matrix.py [jobs]"""
+import json, os, subprocess, glob, re, sys
+from concurrent.futures import ThreadPoolExecutor
+jobs = int(sys.argv[1]) if len(sys.argv) > 1 else 8
+dirs = sorted(glob.glob("/verif/seeded/*/"))
+def run(d):
+    return d, subprocess.run(["/verif/tools/trypatch.sh", d + "patch.diff"], capture_output=True).stdout.decode("utf-8", "replace")
 rows = []
-for d in sorted(glob.glob("/verif/seeded/*/")):
-    sid = os.path.basename(d.rstrip("/"))
-    meta = json.load(open(d + "meta.json"))
-    out = subprocess.run(["/verif/tools/trypatch.sh", d + "patch.diff"], capture_output=True, text=True).stdout
-    keys = re.findall(r"^\[(C\d+)\] (FAIL|UNDECIDED)\s+(\S+)", out, re.M)
-    meta["detected_by"] = [f"{k[2]} ({k[1].lower()})" for k in keys]
-    meta["detected"] = bool(keys)
-    json.dump(meta, open(d + "meta.json", "w"), indent=1)
-    rows.append((sid, meta["property"], "yes" if keys else "NO", ", ".join(sorted({k[2].split(':')[0] for k in keys}))))
+with ThreadPoolExecutor(jobs) as ex:
+    for d, out in ex.map(run, dirs):
+        sid = os.path.basename(d.rstrip("/"))
+        meta = json.load(open(d + "meta.json"))
+        keys = re.findall(r"^\[(C\d+)\] (FAIL|UNDECIDED)\s+(\S+)", out, re.M)
+        meta["detected_by"] = sorted({f"{k[2]} ({k[1].lower()})" for k in keys})
+        meta["detected"] = bool(keys)
+        json.dump(meta, open(d + "meta.json", "w"), indent=1)
+        evaluators = sorted({k[2].split(':')[0] for k in keys if "-values" in k[2] or ".prefix-order" in k[2]})
+        shape = sorted({k[2].split(':')[0] for k in keys if not ("-values" in k[2] or ".prefix-order" in k[2])})
+        rows.append((sid, meta["property"], "yes" if keys else "NO", ", ".join(evaluators), ", ".join(shape)))
 with open("/verif/seeded/MATRIX.md", "w") as f:
-    f.write("| seed | property | detected | rules that fire |\n|---|---|---|---|\n")
-    for r in rows: f.write("| %s | %s | %s | %s |\n" % r)
-print(open("/verif/seeded/MATRIX.md").read())
+    f.write("| seed | property | detected | evaluators (P13) that report it | shape rules that report it |\n|---|---|---|---|---|\n")
+    for r in rows: f.write("| %s | %s | %s | %s | %s |\n" % r)
+n = len(rows); det = sum(1 for r in rows if r[2] == "yes"); ev = sum(1 for r in rows if r[3]); sh = sum(1 for r in rows if r[4])
+print(f"{n} seeds, {det} detected; {ev} by an evaluator, {sh} by a shape rule, {sum(1 for r in rows if r[3] and not r[4])} by evaluators only, {sum(1 for r in rows if r[4] and not r[3])} by shape rules only")
